@@ -1476,3 +1476,216 @@ func ruleFloatResultFinite(c *Ctx, r *Report) {
 	}
 	r.analysed(rule, fmt.Sprintf("%d returned results of operations that can overflow", n))
 }
+
+// ---------------------------------------------------------------------------
+// R-INT-ARM-NO-FLOAT (C07; added after seed C07f): "integers converted to float when mixed" - and only then.
+// For the binary evaluables whose value on two integers is an integer (everything in the table of binary
+// functors except the float-valued /, ** and atan2) no operand is converted to a float unless ANOTHER operand
+// of the same function is a float: at every conversion site (a call of the Integer->Float primitive, or a
+// conversion of an engine.Integer to a float type) in such a function or in a helper it statically calls, some
+// other parameter of the enclosing function is a Float by its static type or by a type assertion known to have
+// succeeded.  A helper with no other numeric parameter hands the obligation to its call sites.  Above 2^53
+// neighbouring integers share a double: max(9007199254740992, 9007199254740993) compared through floats
+// answers the wrong operand.
+var floatValuedOnIntegers = map[string]string{
+	"atomSlash":            "(/)/2 is float division in this system",
+	"atomAsteriskAsterisk": "(**)/2 is float exponentiation in this system",
+	"atomAtan2":            "atan2/2 is a float function",
+}
+
+func ruleIntArmNoFloat(c *Ctx, r *Report) {
+	const rule = "R-INT-ARM-NO-FLOAT"
+	desc := "an operand of an integer-valued binary evaluable is converted to float only when another operand is a float"
+	table := c.global("binaryFunctors")
+	itof := c.fn("floatItoF")
+	if table == nil {
+		r.undecided(rule, "anchor:binaryFunctors", "-", "locate the table of binary evaluables", "not found")
+		return
+	}
+	// the table's entries: MapUpdate instructions in the package initialiser
+	roots := map[*ssa.Function]string{}
+	floatRoots := map[*ssa.Function]bool{} // the float-valued entries: another entry may delegate to them on its float arms
+	for _, fn := range c.LibFuncs() {
+		if !isInitFn(fn) {
+			continue
+		}
+		eachInstr(fn, func(in ssa.Instruction) {
+			mu, ok := in.(*ssa.MapUpdate)
+			if !ok {
+				return
+			}
+			isTable := false
+			for _, l := range c.originSet(mu.Map) {
+				if mm, ok := l.(*ssa.MakeMap); ok && mm.Referrers() != nil {
+					for _, ref := range *mm.Referrers() {
+						if st, ok := ref.(*ssa.Store); ok && st.Addr == ssa.Value(table) {
+							isTable = true
+						}
+					}
+				}
+			}
+			if !isTable {
+				return
+			}
+			key := ""
+			if ld, ok := mu.Key.(*ssa.UnOp); ok {
+				if g, ok := ld.X.(*ssa.Global); ok {
+					key = g.Name()
+				}
+			}
+			var f *ssa.Function
+			switch v := mu.Value.(type) {
+			case *ssa.Function:
+				f = v
+			case *ssa.MakeClosure:
+				f, _ = v.Fn.(*ssa.Function)
+			case *ssa.ChangeType:
+				f, _ = v.X.(*ssa.Function)
+			}
+			if f != nil && floatValuedOnIntegers[key] == "" {
+				roots[f] = key
+			} else if f != nil {
+				floatRoots[f] = true
+			}
+		})
+	}
+	if len(roots) < 10 {
+		r.undecided(rule, "anchor:table-entries", "-", desc, fmt.Sprintf("only %d integer-valued entries of binaryFunctors recognised", len(roots)))
+		return
+	}
+	// scope: the roots and the engine functions they statically reach, except what only float-valued entries use
+	scope := map[*ssa.Function]bool{}
+	var add func(fn *ssa.Function, depth int)
+	add = func(fn *ssa.Function, depth int) {
+		if scope[fn] || depth > 4 || fn.Blocks == nil || funcPkg(fn) != c.Engine || fn == itof || floatRoots[fn] {
+			return
+		}
+		scope[fn] = true
+		eachInstr(fn, func(in ssa.Instruction) {
+			if ci, ok := in.(ssa.CallInstruction); ok {
+				if callee := ci.Common().StaticCallee(); callee != nil {
+					add(callee, depth+1)
+				}
+			}
+		})
+	}
+	for f := range roots {
+		add(f, 0)
+	}
+	isNumT := func(t types.Type) string {
+		switch {
+		case isEngNamed(t, "Float") && !isPtr(t):
+			return "F"
+		case isEngNamed(t, "Integer") && !isPtr(t):
+			return "I"
+		case isEngNamed(t, "Number"):
+			return "N"
+		}
+		return ""
+	}
+	var check func(fn *ssa.Function, site ssa.Instruction, converted ssa.Value, depth int) string
+	check = func(fn *ssa.Function, site ssa.Instruction, converted ssa.Value, depth int) string {
+		// which parameter is being converted
+		var from *ssa.Parameter
+		for _, l := range c.originSet(converted) {
+			if p, ok := l.(*ssa.Parameter); ok {
+				from = p
+			}
+		}
+		others := 0
+		for _, p := range fn.Params {
+			if p == from {
+				continue
+			}
+			switch isNumT(p.Type()) {
+			case "F":
+				return ""
+			case "I":
+				others++
+			case "N":
+				others++
+				for f := range c.factsAt(site.Block()) {
+					ex, ok := f.cond.(*ssa.Extract)
+					if !ok || ex.Index != 1 || !f.pol {
+						continue
+					}
+					ta, ok := ex.Tuple.(*ssa.TypeAssert)
+					if !ok || !isEngNamed(ta.AssertedType, "Float") {
+						continue
+					}
+					for _, l := range c.originSet(ta.X) {
+						if l == ssa.Value(p) {
+							return ""
+						}
+					}
+				}
+			}
+		}
+		if others == 0 && depth < 2 {
+			// a unary helper: the question goes to its callers inside the scope
+			bad := ""
+			n := 0
+			for _, cs := range c.callSitesOf(fn) {
+				if !scope[cs.Parent()] {
+					continue
+				}
+				n++
+				for _, a := range cs.Common().Args {
+					if isNumT(a.Type()) != "" || isEngNamed(a.Type(), "Number") {
+						if w := check(cs.Parent(), cs, a, depth+1); w != "" {
+							bad = w
+						}
+					}
+				}
+			}
+			if n > 0 {
+				return bad
+			}
+		}
+		return "no other operand of " + fn.Name() + " is known to be a float here"
+	}
+	n := 0
+	var fns []*ssa.Function
+	for fn := range scope {
+		fns = append(fns, fn)
+	}
+	sort.Slice(fns, func(i, j int) bool { return fname(fns[i]) < fname(fns[j]) })
+	for _, fn := range fns {
+		k := 0
+		eachInstr(fn, func(in ssa.Instruction) {
+			var converted ssa.Value
+			switch x := in.(type) {
+			case *ssa.Call:
+				if itof != nil && x.Call.StaticCallee() == itof && len(x.Call.Args) == 1 {
+					converted = x.Call.Args[0]
+				}
+			case *ssa.Convert:
+				if isNumT(x.X.Type()) == "I" {
+					if b, ok := x.Type().Underlying().(*types.Basic); ok && b.Info()&types.IsFloat != 0 {
+						converted = x.X
+					}
+				}
+			}
+			if converted == nil {
+				return
+			}
+			n++
+			k++
+			key := fmt.Sprintf("%s/int->float#%d", fname(fn), k)
+			if why := check(fn, in, converted, 0); why == "" {
+				r.ok(rule, key, c.at(in), desc, "another operand is a float (static type or successful assertion)", true)
+			} else {
+				r.bad(rule, key, c.at(in), desc, why+": on two integers the evaluable goes through float64, where integers above 2^53 lose their low bits")
+			}
+		})
+	}
+	if n == 0 {
+		r.info(rule, "scan/conversions", "-", desc, "no integer-to-float conversion in the integer-valued binary evaluables")
+	}
+	var names []string
+	for f, k := range roots {
+		names = append(names, k+"="+f.Name())
+	}
+	sort.Strings(names)
+	r.analysed(rule, names...)
+}
